@@ -353,8 +353,11 @@ def _apply_power_mapping(ufunc, in_unit, in_size, in_shape, input_kwarg_dict):
     # a repeated product which we implement as an exponent
     mul = 1
     power_map = POWER_MAPPING[ufunc]
-    if input_kwarg_dict.get("axis", None) is not None:
-        unit = in_unit ** (power_map(in_shape[input_kwarg_dict["axis"]]))
+    # ufunc.reduce works along axis 0 unless told otherwise; axis=None means
+    # all elements (that is what ndarray.prod passes by default)
+    axis = input_kwarg_dict.get("axis", 0)
+    if axis is not None and in_shape:
+        unit = in_unit ** (power_map(in_shape[axis]))
     else:
         unit = in_unit ** (power_map(in_size))
     return mul, unit
